@@ -20,6 +20,7 @@ import (
 	"fmt"
 	"io"
 	"math"
+	"sort"
 	"time"
 
 	"github.com/pkg/errors"
@@ -228,6 +229,23 @@ func (b *backend) GetPartitions(ctx context.Context, r *proto.ListPartitionReque
 	if err != nil {
 		klog.Errorf("backend getPartitions %v return err %v", r, err)
 		return nil, err
+	}
+	// advertise the borders a scan itself works with: sorted, contiguous and never inside the
+	// versions of one key, so that a client streaming the pieces one by one does not get a key
+	// from two of them
+	sort.Slice(partitions, func(i, j int) bool {
+		return bytes.Compare(partitions[i].Start, partitions[j].Start) < 0
+	})
+	for i := range partitions {
+		if i != 0 {
+			partitions[i].Start = partitions[i-1].End
+		}
+		if i != len(partitions)-1 {
+			userKey, revision, err := b.coder.Decode(partitions[i].End)
+			if err == nil && revision != 0 {
+				partitions[i].End = b.coder.EncodeRevisionKey(userKey)
+			}
+		}
 	}
 	resp = &proto.ListPartitionResponse{
 		Header:       responseHeader(rev),
